@@ -22,7 +22,7 @@ RULE = ('case = (key algorithm, protection cipher, S2K hash, passphrase class) |
         'was injected; distinct = distinct case descriptors')
 ASSUMPTIONS = ['CPython cannot wipe immutable ints: "holds no secret integer" is checked on the object graph reachable from the key, not on freed heap memory',
                'failpoints are never placed inside the cleanup code itself (user code cannot fail there)']
-MIN_COUNTERS = {'quick': {'protect_checked': 20, 'ref_recovered_secrets': 40, 'foreign_unlocked': 30, 'history_steps': 100, 'faults_injected': 1500, 'graph_scans': 1500, 'wrong_passphrase_rejected': 30, 'wrong_passphrase_rejected_while_open': 30},
+MIN_COUNTERS = {'quick': {'protect_checked': 20, 'ref_recovered_secrets': 40, 'foreign_unlocked': 30, 'history_steps': 100, 'faults_injected': 1500, 'graph_scans': 1500, 'wrong_passphrase_rejected': 30, 'wrong_passphrase_rejected_while_open': 30, 'stub_operations_refused': 100},
                 'thorough': {'faults_injected': 8000, 'history_steps': 1500}}
 BUDGET = {'quick': (600, 1500), 'thorough': (1800, 3600)}
 TECHNIQUE = 'runtime monitoring: reference-model monitor on exports + history model + control-fault injection (sys.monitoring LINE failpoints at every line of the unlock scope) with object-graph invariant scan'
@@ -55,6 +55,8 @@ def cases(tier, seed):
             if pwk == 'long':
                 # iterated, count 1024 < salt + passphrase (1032 octets)
                 cs[-1].update({'spec': 3, 'cnt': 0})
+    # stub keys (secret held elsewhere) of every algorithm family
+    for name in ('rsa1024_0', 'dsa1024_0', 'elg1024_0', 'ecdsa_p256_0', 'ed25519_0', 'cv25519_0', 'ecdh_p256_0', 'dsa2048_0'):
         cs.append({'t': 'gnu', 'key': name, 'ext': 1})
         cs.append({'t': 'gnu', 'key': name, 'ext': 2})
     for h in range(12 if tier == 'quick' else 240):
